@@ -74,32 +74,139 @@ func c11Extra(c *Checker) {
 		}
 		e := c.structEnc(f)
 		n := 0
+		fvName := func(r string) (string, int) {
+			var i int
+			fmt.Sscanf(r, "fv:%d", &i)
+			return f.FreeVars[i].Name(), i
+		}
+		// directFV: v is the captured variable itself or the value currently stored in it
+		directFV := func(v ssa.Value) (string, bool) {
+			if u, ok := v.(*ssa.UnOp); ok {
+				v = u.X
+			}
+			for _, fv := range f.FreeVars {
+				if v == ssa.Value(fv) {
+					return fv.Name(), true
+				}
+			}
+			return "", false
+		}
 		for _, b := range f.Blocks {
 			for _, ins := range b.Instrs {
-				st, ok := ins.(*ssa.Store)
+				switch x := ins.(type) {
+				case *ssa.Store:
+					for r := range rootsOf(x.Addr) {
+						if !strings.HasPrefix(r, "fv:") {
+							continue
+						}
+						name, i := fvName(r)
+						n++
+						if x.Addr == ssa.Value(f.FreeVars[i]) {
+							c.addStruct(e, "own", "cell:"+name, x.Pos(), false, fmt.Sprintf("the concurrently invoked closure assigns the variable %q of the enclosing function: overlapping invocations share it", name))
+						} else {
+							c.addStruct(e, "own", "via:"+name, x.Pos(), false, fmt.Sprintf("the concurrently invoked closure writes an object reached through the captured variable %q", name))
+						}
+					}
+				case *ssa.MapUpdate:
+					if mi.pathGuarded(x.Map, 0) {
+						continue
+					}
+					for r := range rootsOf(x.Map) {
+						if strings.HasPrefix(r, "fv:") {
+							name, _ := fvName(r)
+							n++
+							c.addStruct(e, "own", "via:"+name, x.Pos(), false, fmt.Sprintf("the concurrently invoked closure updates a map reached through the captured variable %q: overlapping invocations share it", name))
+						}
+					}
+				}
+				ci, ok := ins.(ssa.CallInstruction)
 				if !ok {
 					continue
 				}
-				for r := range rootsOf(st.Addr) {
-					if !strings.HasPrefix(r, "fv:") {
+				cc := ci.Common()
+				if bi, ok := cc.Value.(*ssa.Builtin); ok {
+					if (bi.Name() == "delete" || bi.Name() == "append" || bi.Name() == "copy") && !mi.pathGuarded(cc.Args[0], 0) {
+						for r := range rootsOf(cc.Args[0]) {
+							if strings.HasPrefix(r, "fv:") {
+								name, _ := fvName(r)
+								n++
+								c.addStruct(e, "own", "via:"+name, ins.Pos(), false, fmt.Sprintf("the concurrently invoked closure modifies (%s) a container reached through the captured variable %q", bi.Name(), name))
+							}
+						}
+					}
+					continue
+				}
+				// a captured value handed directly to a callee that writes through that parameter
+				var targets []*ssa.Function
+				args := cc.Args
+				if cc.IsInvoke() {
+					targets = mi.implMethods(cc.Value.Type(), cc.Method)
+					args = append([]ssa.Value{cc.Value}, cc.Args...)
+				} else if callee := cc.StaticCallee(); callee != nil && callee.Blocks != nil {
+					targets = []*ssa.Function{callee}
+				}
+				for ai, a := range args {
+					name, ok := directFV(a)
+					if !ok {
 						continue
 					}
-					var i int
-					fmt.Sscanf(r, "fv:%d", &i)
-					name := f.FreeVars[i].Name()
-					direct := st.Addr == ssa.Value(f.FreeVars[i])
-					n++
-					if direct {
-						c.addStruct(e, "own", "cell:"+name, st.Pos(), false, fmt.Sprintf("the concurrently invoked closure assigns the variable %q of the enclosing function: overlapping invocations share it", name))
-					} else {
-						c.addStruct(e, "own", "via:"+name, st.Pos(), false, fmt.Sprintf("the concurrently invoked closure writes an object reached through the captured variable %q", name))
+					switch a.Type().Underlying().(type) {
+					case *types.Map, *types.Slice, *types.Pointer:
+					default:
+						continue // interface values (scopes, runtimes) synchronise themselves; checked by their own contracts
+					}
+					for _, t := range targets {
+						if mi.writesThrough == nil {
+							mi.computeGlobalWrites()
+						}
+						if mi.writesThrough[t]["p:"+itoa(ai)] {
+							n++
+							c.addStruct(e, "own", "handed:"+name, ins.Pos(), false, fmt.Sprintf("the captured variable %q is handed to %s, which writes through that parameter: overlapping invocations share the object", name, funcKey(t)))
+							break
+						}
 					}
 				}
 			}
 		}
 		c.addStruct(e, "own", "cell-scan", f.Pos(), true, fmt.Sprintf("all stores of %s compared with its %d captured variables (%d stores into captured state)", k, len(f.FreeVars), n))
 	}
-	// own:shared over the cone of evaluation
+	sharedScan(c, keys)
+}
+
+// sharedFieldPath: the access path of v passes through a field of a shared interpreter structure;
+// returns "Type.field".
+func sharedFieldPath(v ssa.Value, depth int) string {
+	if v == nil || depth > 12 {
+		return ""
+	}
+	switch x := v.(type) {
+	case *ssa.FieldAddr:
+		pt := x.X.Type().Underlying().(*types.Pointer).Elem()
+		st := pt.Underlying().(*types.Struct)
+		arr := fieldArrName(pt, st, x.Field)
+		if isSharedInterpStruct(arr) && !isLocalAlloc(x.X) {
+			return strings.TrimPrefix(arr, "H_")
+		}
+		return sharedFieldPath(x.X, depth+1)
+	case *ssa.UnOp:
+		return sharedFieldPath(x.X, depth+1)
+	case *ssa.IndexAddr:
+		return sharedFieldPath(x.X, depth+1)
+	case *ssa.Lookup:
+		return sharedFieldPath(x.X, depth+1)
+	case *ssa.Slice:
+		return sharedFieldPath(x.X, depth+1)
+	case *ssa.Extract:
+		return sharedFieldPath(x.Tuple, depth+1)
+	}
+	return ""
+}
+
+// sharedScan: own:shared obligations over the cone of evaluation (used by C11 and C13).
+func sharedScan(c *Checker, keys []string) {
+	w := c.W
+	w.immutableArr("")
+	mi := w.Mod
 	var evalRoots, setupRoots []*ssa.Function
 	for _, f := range w.FuncList {
 		if f.Signature.Recv() == nil {
@@ -150,11 +257,47 @@ func c11Extra(c *Checker) {
 				bad = append(bad, a)
 			}
 		}
-		if len(bad) == 0 {
+		// containers (maps, slices) that live in fields of shared structures
+		type cw struct {
+			ins  ssa.Instruction
+			what string
+		}
+		var cws []cw
+		for _, b := range f.Blocks {
+			for _, ins := range b.Instrs {
+				var operand ssa.Value
+				how := ""
+				switch x := ins.(type) {
+				case *ssa.MapUpdate:
+					operand, how = x.Map, "map update"
+				case *ssa.Store:
+					if ia, ok := x.Addr.(*ssa.IndexAddr); ok {
+						operand, how = ia.X, "element store"
+					}
+				case ssa.CallInstruction:
+					if bi, ok := x.Common().Value.(*ssa.Builtin); ok && (bi.Name() == "delete") {
+						operand, how = x.Common().Args[0], bi.Name()
+					}
+				}
+				if operand == nil || mi.pathGuarded(operand, 0) {
+					continue
+				}
+				if fp := sharedFieldPath(operand, 0); fp != "" && !declaredGuarded(w, "H_"+fp) {
+					cws = append(cws, cw{ins, how + " on " + fp})
+				}
+			}
+		}
+		if len(bad) == 0 && len(cws) == 0 {
 			continue
 		}
 		sort.Strings(bad)
 		e := c.structEnc(f)
+		for _, x := range cws {
+			if isSetup[f] && (f.Name() == "Validate" || !isEvalRoot(evalRoots, f)) {
+				continue
+			}
+			c.addStruct(e, "own", "shared-container", x.ins.Pos(), false, fmt.Sprintf("%s is reachable from an evaluation and performs a %s, a container shared by all concurrent invocations, without a declared lock", funcKey(f), x.what))
+		}
 		for _, a := range bad {
 			name := strings.TrimPrefix(a, "H_")
 			if isSetup[f] && (f.Name() == "Validate" || !isEvalRoot(evalRoots, f)) {
